@@ -516,6 +516,12 @@ theorem crcvBlock_spec (single : Bool) (cap : Nat) (junk : UInt8) (body : Bytes)
     · exact hh.2 (by omega)
     · exact hh.1 e1
   rw [if_neg hund] at h
+  -- "More set on the last block number" (fix 1edd277): refused, nothing stored, the lg_crcv is gone
+  by_cases hlastnum : more body.length szx num ≠ 0 ∧ 0xFFFFF ≤ num
+  · rw [if_pos hlastnum] at h
+    cases h
+    exact storeSpec_inert _ _ _ _ _ _ _ _ _ _ (by intro s' hs'; cases hs') (Or.inl rfl)
+  rw [if_neg hlastnum] at h
   have hend : num * chunkSize szx + (slice body szx num).length ≤ body.length := by omega
   have hm0 : more body.length szx num = 0 → num * chunkSize szx + (slice body szx num).length = body.length := by
     intro hh
@@ -765,6 +771,9 @@ theorem crcvStep_perblock (cap : Nat) (junk : UInt8) (st : Option Crcv) (r : Res
     by_cases hund : m ≠ 0 ∧ data.length ≠ 2 ^ (szx + 4)
     · rw [if_pos hund]; exact ⟨fun n s h => (by cases h), fun h => (by cases h)⟩
     · rw [if_neg hund]
+      by_cases hlastnum : m ≠ 0 ∧ 0xFFFFF ≤ num
+      · rw [if_pos hlastnum]; exact ⟨fun n s h => (by cases h), fun h => (by cases h)⟩
+      rw [if_neg hlastnum]
       cases he : r.etag with
       | some e =>
         simp only
